@@ -115,7 +115,24 @@ C10_FORMS = {
                                desc="dsl.Validate on a record with every kind of field and one computed field whose expression is: switch over optional/union/scalar targets with 1-2 cases and every pattern kind; no panic, errors carry a file position")),
 }
 
+def c05_key(aid, events, outs):
+    o = {x["key"]: x["val"] for x in outs}
+    return "c05:%s:%s->%s" % (aid, o.get("from", "?"), o.get("to", "?"))
+
+
+C05_ASSUME = ["the emitted guard text is read back through the four statement forms writeTypeConversion emits today (`src > limits<T>::max()`, `src < limits<T>::lowest()`, `src < 0`, throw)",
+              "C++ integer comparison/`numeric_limits` semantics transcribed as 64-bit arithmetic in the harness; static_cast of an in-range value preserves it"]
+
 PARTS = {
+    "C05": [
+        (G, "gosym_part", dict(name="c05_int_conversion_read", entry="internal/zzverif.C05IntConversion", args_quick=(0,), args_thorough=(0,), key_fn=c05_key,
+                               required_sites=("no-silent-wrap", "no-spurious-overflow-error", "guard-throws", "assigns-static-cast-to-target"), assumptions=C05_ASSUME,
+                               desc="cpp/binary.writeTypeConversion for TypeChangeNumberToNumber on a symbolic (old, new) pair of the 9 integer primitives, reading an old stream: "
+                                    "for every 64-bit value of the old type the emitted code throws iff the value is outside the new type's range")),
+        (G, "gosym_part", dict(name="c05_int_conversion_write", entry="internal/zzverif.C05IntConversion", args_quick=(1,), args_thorough=(1,), key_fn=c05_key,
+                               required_sites=("no-silent-wrap", "no-spurious-overflow-error"), assumptions=C05_ASSUME,
+                               desc="same for the write direction (writing a value of the current type to a previous version)")),
+    ],
     "C19": [
         (G, "gosym_part", dict(name="c19_static_types", entry="internal/zzverif.C19Types",
                                required_sites=("accept-reject-independent-of-operand-order", "type-independent-of-operand-order", "integer-power-is-float64", "result-kind-is-widest-operand-kind"),
@@ -261,6 +278,10 @@ NOTES = ("Every claim is bounded: 'holds' means unsat within the stated bound. E
 NOT_APPLICABLE = {}
 
 CLAIMS = {
+    "C05": dict(text="Bounded symbolic execution (gosym) of the C++ conversion emitter for accepted integer->integer changes, in both directions: for a symbolic type pair and "
+                     "a symbolic 64-bit value of the source type, the emitted guard throws exactly when the value does not fit the target type (no silent wrap, no spurious error).",
+                note="Emitter level only: generated C++ cannot be compiled or executed here. Float/complex/string conversions, record field add/remove/reorder plans, union/optional "
+                     "changes, protocol-step switches and version chains are not covered yet (DESIGN C05)."),
     "C19": dict(text="Bounded symbolic execution (gosym) of computed-field type inference on `a op b` vs `b op a` for every ordered pair of the 13 numeric primitive types "
                      "(symbolic, solver-decided) and every operator: verdict and static type are symmetric, `**` on integers is float64, result kind = widest operand kind.",
                 note="Static typing only so far; agreement of the three expression emitters and of host-language operator semantics (e.g. Python // vs C++ /) is a separate part "
